@@ -277,18 +277,11 @@ def resetPayload : Doc → Doc
   | real _ => real 0
   | d => d
 
-/-- `operator=(ValueType)` (Value.hpp:203-206) only sets the tag.  The payload bytes are reinterpreted,
-which is well defined only when they are all zero: that is known for scalars whose 8 payload bytes
-are zero (an empty string or container may still own storage); `none` otherwise (and for ValuePtr,
-which would be a null pointer). -/
-def assignType (k : Nat) (d : Doc) : Option Doc :=
-  let zero : Bool := match d with
-    | undef | tru | fls | null => true
-    | nat 0 => true
-    | int 0 => true
-    | real 0 => true
-    | _ => false
-  if !zero then none else
+/-- `operator=(ValueType)` (Value.hpp:203-207, after repair d3c7090): `reset()` then the tag, i.e. the
+value is replaced by the empty value of that kind whatever it held (before the repair only the tag was
+rewritten and the old payload was reinterpreted).  `none` for ValuePtr (it would be a null pointer) and
+for numbers that are not a `ValueType`: not driven. -/
+def assignType (k : Nat) (_d : Doc) : Option Doc :=
   match k with
   | 0 => some undef | 2 => some (obj 0 []) | 3 => some (arr []) | 4 => some (str [])
   | 5 => some (nat 0) | 6 => some (int 0) | 7 => some (real 0) | 8 => some tru | 9 => some fls
@@ -535,7 +528,8 @@ def setBool (env : Env) (d : Doc) : Option Bool :=
   | str s => if s = trueText then some true else if s = falseText then some false else none
   | _ => none
 
-/-! ### `operator==` (Value.hpp:829-874, after the cross-kind repair) -/
+/-! ### `operator==` (Value.hpp:846-895, after the cross-kind repair 0c82573 and the right-hand pointer
+repair 73c896c: a pointer on either side is dereferenced) -/
 
 def eqF (env : Env) : Nat → Doc → Doc → Bool
   | 0, _, _ => false
@@ -553,7 +547,10 @@ def eqF (env : Env) : Nat → Doc → Doc → Bool
     else
       match a with
       | ptr r => eqF env f (envGet env r) b
-      | _ => false
+      | _ =>
+        match b with
+        | ptr q => eqF env f a (envGet env q)
+        | _ => false
 
 def valEq (env : Env) (a b : Doc) : Bool := eqF env (2 * env.length + 2) a b
 
